@@ -77,6 +77,14 @@ func (self *Fork) postProcess(ctx context.Context) error {
 		noutMap := make(MarshalerMap, len(outs))
 		for k, elem := range outs {
 			util.Print("Fork \"%s\":\n", k)
+			if err := syntax.IsLegalUnixFilename(k); err != nil {
+				// Nothing under outs/ can have this name, and joining
+				// it to the path could point outside of outs/ ("..").
+				// Keep the entry, with its files where they are.
+				util.PrintError(err, "cannot create out directory %q", k)
+				noutMap[k] = elem
+				continue
+			}
 			nout, err := self.processStructOuts(pipestancePath,
 				path.Join(outsPath, k), elem)
 			if err != nil {
